@@ -36,7 +36,7 @@ TIERS = {"quick": {"runs": 5000, "wall": 240}, "thorough": {"runs": 100000, "wal
 MUTANT_RUNS = 300
 MUTANT_WALL = 120
 COMPONENTS = {
-    "real": ["signonetime.main", "signapp.main (hash)", "admin.ledger_utils.compute_app_hash",
+    "real": ["signonetime.main", "signapp.main (hash, message)", "admin.ledger_utils.compute_app_hash",
              "ledgerblue.hexParser.IntelHexParser", "ecdsa (key generation and signing as used by the tool)"],
     "stub": ["file system (SimFS, records every write)", "entropy (os.urandom -> recorded stream)",
              "operator (argv, stdout)"],
@@ -104,6 +104,36 @@ def run_one(ch, cfg):
             if st != 0 or got != want:
                 viol.append(("hash/value", "image %d writing %d: signapp hash -> %r (exit %s), SHA-256 "
                              "over the areas in address order is %s" % (i, j, got, st, want)))
+    # ---- signapp message: successive releases written to the same authorisation file (and to the
+    # console): the hash embedded is that of the image given in *this* run
+    import json as _json
+    order = list(range(nimg)) + ([ch.draw(nimg, "release.again")] if ch.draw(2, "release.extra") else [])
+    same_path = ch.draw(4, "release.fresh-path") != 1
+    for n, i in enumerate(order):
+        want = hexfile.reference_hash(areas_list[i]).hex()
+        it = ch.pick([1, 2, 0, 65535, 300], "release.iteration") if n else ch.pick([1, 0, 7], "release.it0")
+        w0.fs.put("/simfs/rel.hex", writings[i][n % 2])
+        outp = "/simfs/auth.json" if same_path else "/simfs/auth%d.json" % n
+        console = ch.draw(4, "release.console") == 1
+        argv = ["signapp.py", "message", "-a", "/simfs/rel.hex", "-i", str(it)]
+        st, out = w0.run_tool(signapp.main, argv + ([] if console else ["-o", outp]))
+        if st != 0:
+            viol.append(("message/failed", "release %d (image %d): exit %s: %s" % (n, i, st, out[-200:])))
+            continue
+        if console:
+            if ("RSK_powHSM_signer_%s_iteration_%d" % (want, it)) not in out:
+                viol.append(("message/hash", "release %d (image %d, iteration %d) printed %r; the image "
+                             "hashes to %s" % (n, i, it, out[-300:], want)))
+            continue
+        try:
+            doc = _json.loads(w0.fs.files[outp].decode())
+            got = (doc["signer"]["hash"], doc["signer"]["iteration"], doc["signatures"])
+        except Exception as e:
+            got = "unreadable: %s" % e
+        if got != (want, it, []):
+            viol.append(("message/hash", "release %d (image %d, iteration %d) to %s path wrote %r; the "
+                         "image hashes to %s" % (n, i, it, "the same" if same_path else "a fresh",
+                                                 got, want)))
     w0.entropy_on = False
     # ---- signonetime under two entropy streams (+ a repeat of the first)
     images = [wr[0] for wr in writings]
